@@ -129,3 +129,25 @@ Theorem C16_data_arms_ack :
   k_body p = Some b -> dispatch z f c p now = (c', o, h) -> c_zlb c' = Some (now + f_zlb f).
 Proof. exact data_arms_ack. Qed.
 Print Assumptions C16_data_arms_ack.
+
+(* BOUNDED RETRANSMISSION.  If the oldest queued message p has been transmitted p_att >= 1 times and no
+   acknowledgement arrives, then MaxRetries - p_att + 1 Ticks — the first at or after its deadline, the
+   following ones at least rtoMax apart — are enough for the dead callback to fire (possibly earlier
+   because of another message).  With C16_window (attempts <= MaxRetries, one transmission per attempt)
+   this is "the sender declares the tunnel dead after its bounded retransmissions". *)
+Theorem C16_dead_after_max :
+  forall f n c p r t ts,
+  c_q c = p :: r -> 1 <= p_att p -> Z.of_nat n = f_maxr f - p_att p -> p_dl p <= t ->
+  spaced (f_rto_max f) t ts -> length ts = n ->
+  dead_within f c (t :: ts) = true.
+Proof. exact dead_after_max. Qed.
+Print Assumptions C16_dead_after_max.
+
+(* non-vacuity: MaxRetries 3, one message sent at 0 (deadline 100): dead at the third expiry, not at the second *)
+Example C16_dead_nonvacuous :
+  (exists p r, c_q ex_chan = p :: r /\ p_att p = 1 /\ p_dl p = 100) /\
+  dead_within ex_conf ex_chan [100; 500; 900] = true /\
+  dead_within ex_conf ex_chan [100; 500] = false /\
+  length (snd (fst (fst (tick ex_conf ex_chan 100)))) = 1%nat.
+Proof. exact dead_example. Qed.
+Print Assumptions C16_dead_nonvacuous.
